@@ -243,7 +243,9 @@ func (e *Exec) toBytesV(s *State, v Val) BytesV {
 			b = append(b, byte(n.Int64()))
 		}
 		return BytesV{Segs: []Seg{{Kind: "c", B: b}}}
-	case StrV, SymStr:
+	case StrV:
+		return BytesV{Segs: []Seg{{Kind: "c", B: []byte(x.S)}}} // concrete strings are concrete bytes
+	case SymStr:
 		return BytesV{Segs: []Seg{{Kind: "str", T: e.strID(v)}}}
 	case MarshaledV:
 		return BytesV{Segs: []Seg{{Kind: "str", T: e.sol.fresh("marshaled", false)}}}
